@@ -206,7 +206,12 @@ GUnsubscribe ==
          IN Step(i, UnsubscribeFx(Cur, s, N, id))
 
 GPublish ==
-  \E s \in J : \E bad \in R(1..8) : \E u \in R(IF Mode = "disc" THEN {U_ab, U_abc} ELSE IF bad = 1 THEN BadURIs ELSE Targets) :
+  \E s \in J : \E bad \in R(1..8) :
+  \E u \in R(LET deaf == {t \in Targets : \E k \in DOMAIN subs : MatchKey(k, t) /\ \E m \in subs[k].members : sess[m].stalled /\ Room(Cur, m)}
+             IN IF Mode = "disc" THEN {U_ab, U_abc}
+                \* fill the queue of a session that does not read
+                ELSE IF Mode = "stall" /\ deaf # {} /\ bad > 4 THEN deaf
+                ELSE IF bad = 1 THEN BadURIs ELSE Targets) :
   \E kind \in (IF Mode = "disc" THEN R({7, 8}) ELSE R(1..8)), xl \in R(SidLists), el \in R(SidLists), xa \in R(XaSet), ea \in R(EaSet),
      ack \in (IF Mode = "stall" THEN {TRUE} ELSE R(BOOLEAN)), xme \in W(<<"", "", "t", "f", "f">>),
      dme \in (IF Mode = "disc" THEN W(<<TRUE, TRUE, TRUE, FALSE>>) ELSE W(<<FALSE, FALSE, TRUE>>)) :
@@ -335,8 +340,13 @@ GLeave ==
     IN Step(i, LeaveFx(Cur, s, how, ""))
 
 GStall ==
-  \E s \in {x \in J : ~sess[x].stalled} :
-    Step([In0 EXCEPT !.op = "stall", !.s = s], StallFx(Cur, s))
+  /\ {x \in J : ~sess[x].stalled} # {}
+  /\ \E pick \in R(1..3) :
+       \E s \in R(LET all == {x \in J : ~sess[x].stalled}
+                      \* preferably somebody who is serving a call (its queue then matters to the dealer)
+                      serving == {x \in all : \E c \in DOMAIN calls : calls[c].callee = x}
+                  IN IF serving # {} /\ pick # 1 THEN serving ELSE all) :
+         Step([In0 EXCEPT !.op = "stall", !.s = s], StallFx(Cur, s))
 
 GResume ==
   \E s \in {x \in Joined(Cur) : sess[x].stalled} :
@@ -387,13 +397,25 @@ GBurstMix ==
                                  [s |-> cl, ops |-> [j \in 1..3 |-> [In0 EXCEPT !.op = "call", !.s = cl, !.req = N * 100 + 60 + j,
                                                                                   !.uri = k[1], !.tag = BTag(cl, 10 + j),
                                                                                   !.o = [O0 EXCEPT !.rprog = TRUE]]]] >>
+          \* request/reply loops against the dealer and the meta API (the workers must never
+          \* wait on each other in a cycle)
+          loops == LET a == CHOOSE x \in J : TRUE
+                       b == IF J \ {a} = {} THEN a ELSE CHOOSE x \in J \ {a} : TRUE
+                   IN << [s |-> a, ops |-> <<[In0 EXCEPT !.op = "regchurn", !.s = a, !.req = N * 100 + 1000, !.id = 25]>>],
+                         [s |-> b, ops |-> <<[In0 EXCEPT !.op = "metaloop", !.s = b, !.req = N * 100 + 2000, !.id = 25]>>] >>
           \* one program per session
-          progs0 == <<PubProg(p1, u1, FALSE, n1), churn>> \o rpc
+          progs0 == <<PubProg(p1, u1, FALSE, n1), churn>> \o rpc \o (IF n1 # 4 THEN loops ELSE <<>>)
           names == {progs0[j].s : j \in DOMAIN progs0}
           merged == [s \in names |-> [s |-> s, ops |-> FlatOps(progs0, s, 1)]]
           prog == SetToSeq({merged[s] : s \in names})
           i == [In0 EXCEPT !.op = "burst", !.how = "mix", !.prog = prog]
       IN /\ h' = Append(h, i) /\ Commit(Cur)
+
+\* a caller that stops reading while its callee streams progressive results (last step)
+GBurstSlow ==
+  /\ Len(h) = Depth - 1
+  /\ \E n \in R(3..6), q \in R(1..2) :
+       /\ h' = Append(h, [In0 EXCEPT !.op = "burst", !.how = "slow", !.id = n, !.ms = q]) /\ Commit(Cur)
 
 GAdvance ==
   LET dls == {calls[c].deadline - now : c \in {cc \in DOMAIN calls : calls[cc].deadline # 0}}
@@ -450,7 +472,7 @@ GMetaSub ==
       [] OTHER     -> MetaStep(s, [In0 EXCEPT !.uri = U_subscription_count_suscribers, !.id = id])
 
 GKill ==
-  \E s \in J : \E which \in W(<<1, 1, 2, 3, 4>>) : \E id \in R(SidArgs), reason \in W(<<<<>>, <<>>, U_kicked, U_badreason, U_shutdown>>),
+  \E s \in J : \E which \in W(<<1, 1, 2, 3, 4, 4>>) : \E id \in R(SidArgs), reason \in W(<<<<>>, <<>>, <<>>, <<>>, U_kicked, U_badreason, U_shutdown>>),
      role \in R(Roles), aid \in R(Authids) :
     CASE which = 1 -> MetaStep(s, [In0 EXCEPT !.uri = U_session_kill, !.id = id, !.uri2 = reason])
       [] which = 2 -> MetaStep(s, [In0 EXCEPT !.uri = U_session_kill_by_authid, !.args = <<aid>>, !.uri2 = reason])
@@ -470,9 +492,13 @@ GTestament ==
 EntryTimes == UNION {{hist[k][j].t : j \in DOMAIN hist[k]} : k \in DOMAIN hist} \cup {now}
 PubArgs  == {p \in used.pub : p < 100000} \cup {77}
 
+HistPubs   == {p \in UNION {{hist[k][j].pub : j \in DOMAIN hist[k]} : k \in DOMAIN hist} : p < 100000}
+HistTopics == UNION {{hist[k][j].topic : j \in DOMAIN hist[k]} : k \in DOMAIN hist}
 GGetEvents ==
   \E s \in J : \E id \in R(IF DOMAIN hist # {} THEN {subs[k].id : k \in DOMAIN hist} \cup {NextId(used.sub) + 3} ELSE SubArgs) :
-  \E kind \in R(1..20), t \in R(EntryTimes), dt \in R({-1, 0, 1}), pb \in R(PubArgs), pb2 \in R(PubArgs), lim \in R(1..3), u \in R(Targets) :
+  \E kind \in R(1..20), t \in R(EntryTimes), dt \in R({-1, 0, 1}), lim \in R(1..3), pick \in R(1..4) :
+  \E pb \in R(IF HistPubs # {} /\ pick # 1 THEN HistPubs ELSE PubArgs), pb2 \in R(IF HistPubs # {} /\ pick # 1 THEN HistPubs ELSE PubArgs),
+     u \in R(IF HistTopics # {} /\ pick # 2 THEN HistTopics ELSE Targets) :
     LET tt == IF t + dt > 0 THEN t + dt ELSE 1
         f == CASE kind = 1  -> [F0 EXCEPT !.limit = lim]
                [] kind = 2  -> [F0 EXCEPT !.reverse = TRUE]
@@ -508,6 +534,7 @@ GenNext ==
                    ELSE IF Cardinality(J) < 2 /\ \E n \in DOMAIN Names : Names[n] \notin DOMAIN sess
                    THEN {"join"}
                    ELSE IF Len(h) = Depth - 1 /\ \E n \in DOMAIN KindBag : KindBag[n] = "bmix" THEN {"bmix"}
+                   ELSE IF Len(h) = Depth - 1 /\ \E n \in DOMAIN KindBag : KindBag[n] = "bslow" THEN {"bslow"}
                    \* a kill-mode cancel is outstanding: let the callee answer soon
                    ELSE IF coin = 1 /\ (\E n \in DOMAIN KindBag : KindBag[n] = "answer")
                            /\ (\E c \in DOMAIN calls : calls[c].canceled /\ calls[c].callee \in J) THEN {"answer"}
@@ -531,6 +558,7 @@ GenNext ==
        [] kind = "adv"    -> GAdvance
        [] kind = "bpub"   -> GBurstPub
        [] kind = "bmix"   -> GBurstMix
+       [] kind = "bslow"  -> GBurstSlow
        [] kind = "stall"  -> GStall
        [] kind = "resume" -> GResume
        [] kind = "msess"  -> GMetaSession
